@@ -45,6 +45,7 @@ func verifNewStore() *verifStoreT {
 	verifDuringTopicDelete = nil
 	verifCredsLookupFails = false
 	verifUserSubs = nil
+	verifUserTags = nil
 	s := &verifStoreT{
 		subs:   map[string]*types.Subscription{},
 		topics: map[string]*types.Topic{},
@@ -491,8 +492,38 @@ func (verifUsers) UpdateLastSeen(uid types.Uid, userAgent string, when time.Time
 func (verifUsers) Update(uid types.Uid, update map[string]interface{}) error {
 	return verifStore.mutate("Users.Update")
 }
+// verifUserTags: the user's stored tags, when a harness tracks them (nil = UpdateTags answers with no list)
+var verifUserTags []string
+
 func (verifUsers) UpdateTags(uid types.Uid, add, remove, reset []string) ([]string, error) {
-	return nil, verifStore.mutate("Users.UpdateTags")
+	if err := verifStore.mutate("Users.UpdateTags"); err != nil {
+		return nil, err
+	}
+	if verifUserTags == nil {
+		return nil, nil
+	}
+	var out []string
+	if reset != nil {
+		out = append(out, reset...)
+	} else {
+		for _, tg := range verifUserTags {
+			drop := false
+			for _, r := range remove {
+				if r == tg {
+					drop = true
+				}
+			}
+			if !drop {
+				out = append(out, tg)
+			}
+		}
+		out = append(out, add...)
+	}
+	if out == nil {
+		out = []string{}
+	}
+	verifUserTags = out
+	return out, nil
 }
 func (verifUsers) UpdateState(uid types.Uid, state types.ObjState) error {
 	return verifStore.mutate("Users.UpdateState")
